@@ -6,12 +6,12 @@ import random
 from . import core, lexicon
 
 CFG = ("SPECIFICATION Spec\nCONSTANTS MaxAtoms = %d MaxStack = %d Flex = %s Small = %s\n%s"
-       "INVARIANTS TypeOK StackDiscipline\nPROPERTIES Progress TriviaTransparent\nCHECK_DEADLOCK FALSE\n")
+       "INVARIANTS TypeOK StackDiscipline\nPROPERTIES Progress TriviaTransparent Consistent\nCHECK_DEADLOCK FALSE\n")
 
 
 def behaviours(check, flex, small, maxatoms=8, maxstack=2, cover=True, timeout=1500):
     cfg = CFG % (maxatoms, maxstack, "TRUE" if flex else "FALSE", "TRUE" if small else "FALSE", "VIEW view\n" if cover else "")
-    r = core.tlc("Lexer", cfg, timeout=timeout, heap="8g")
+    r = core.tlc("Lexer", cfg, timeout=timeout, heap="8g", workers=1 if cover else None)
     check.add_tlc("Lexer(flex=%s,small=%s,maxatoms=%d,maxstack=%d,%s)" % (flex, small, maxatoms, maxstack, "transition-cover" if cover else "all-paths"), r)
     out = [o for o in r.out if isinstance(o, dict) and "path" in o]
     out.sort(key=lambda o: json.dumps(o["path"]))      # TLC's worker threads print in any order
